@@ -62,6 +62,25 @@ func c07Plan(rng *lib.Rand, idx uint64) *ref.Plan {
 	if rng.Chance(1, 6) {
 		o.Mesgs = nil
 	}
+	if idx%700 == 5 {
+		// a long recording: 17 000 - 20 000 records of one message type on one or two slots,
+		// redefined now and then so that fields first appear (and disappear) late in the slice
+		o.FileType = 4
+		o.Mesgs = []uint16{20}
+		o.Records = 17000 + rng.Intn(3000)
+		o.Locals, o.Redefine, o.Unknown, o.Compressed, o.ZeroFieldDefs, o.RedefSimilar, o.Narrow, o.BigFileId = 1+rng.Intn(2), 0, 0, 5, 0, 0, 0, 0
+		g := lib.NewPlanGen(rng, o)
+		for l := 0; l < o.Locals; l++ {
+			g.Define(byte(l), 20, true)
+		}
+		g.Fill()
+		for k := 0; k < 3; k++ {
+			g.Define(byte(rng.Intn(o.Locals)), 20, true)
+			g.O.Records = 300 + rng.Intn(700)
+			g.Fill()
+		}
+		return g.P
+	}
 	return lib.NewPlanGen(rng, o).Fill()
 }
 
